@@ -102,6 +102,29 @@ pub fn judge_range_api(ctx: &Ctx, l: &mut Local, p: &Params, site: Site, start: 
         }
     }
     l.nontrivial += 1;
+    // the block form of the range API (this host's worker count; the schedule space is C15's subject):
+    // the same map for thresholds that force and that avoid the parallel branch
+    if (0..=400).contains(&span) {
+        for thr in [0usize, 365] {
+            let (p2, loc, dr2) = (p.clone(), site.loc(), dr.clone());
+            let (tx, rx) = std::sync::mpsc::channel();
+            std::thread::spawn(move || {
+                let r = std::panic::catch_unwind(std::panic::AssertUnwindSafe(|| prayer_times_dt_rng_block(&p2, loc, &dr2, thr)));
+                let _ = tx.send(r.ok());
+            });
+            l.evals += 1;
+            let got = rx.recv_timeout(std::time::Duration::from_secs(60));
+            let what = match got {
+                Ok(Some(b)) if b == m => None,
+                Ok(Some(b)) => Some(format!("{} dates instead of {} (or different values)", b.len(), m.len())),
+                Ok(None) => Some("panic".to_string()),
+                Err(_) => Some("no result after 60 s".to_string()),
+            };
+            if let Some(w) = what {
+                ctx.violation("range_block_api_equals_range_api", &format!("thr{}_{}", thr, case.key()), case.to_value(), json!({"threshold": thr, "what": w, "host_parallelism": std::thread::available_parallelism().map(|n| n.get()).unwrap_or(1)}));
+            }
+        }
+    }
     // short ranges additionally against per-day calls made alone in fresh processes: an entry must not
     // depend on its position in the range (state carried from one date to the next inside the range API
     // could also poison the in-process per-day reference above)
@@ -182,7 +205,7 @@ pub fn replay(ctx: &Ctx, clause: &str, case: &Value) {
     crate::c07::install_quiet_hook();
     let mut l = Local::default();
     if clause.starts_with("range_") {
-        let c: PtCase = serde_json::from_value(case.clone()).expect("case");
+        let c: PtCase = serde_json::from_value::<PtCase>(case.clone()).map(PtCase::fix).expect("case");
         judge_range_api(ctx, &mut l, &c.params, c.site, c.date, c.extra["span_days"].as_i64().unwrap());
     } else {
         let start = NaiveDate::parse_from_str(case["start"].as_str().unwrap(), "%Y-%m-%d").unwrap();
